@@ -1,4 +1,5 @@
 import BoltonsVerif.Generated.Src_strutils_lines
+import BoltonsVerif.Generated.Src_jsonutils_lines
 import BoltonsVerif.Generated.C19_LineEndings
 import BoltonsVerif.PyRtLemmas
 import BoltonsVerif.C19.Model
@@ -281,5 +282,212 @@ theorem src_indent_eq_model (key : List Nat → Bool) (margin newline t : List N
 
 example : @Src.strutils.indent Nat ⟨keyBool⟩ [97, 10, 10, 98] [32] [10] (PyRtC19.finditerSpans Generated.lineEndings [97, 10, 10, 98])
     = [32, 97, 10, 10, 32, 98] := by decide
+
+
+/-! ## reverse_iter_lines (binary mode) -/
+
+open Src.jsonutils
+
+/-! ### reverse_iter_lines: the declared operations at β = Nat are the model's -/
+
+theorem bytesLit_nat (l : List Nat) : (PyRtC19.bytesLit l : List Nat) = l := by
+  simp [PyRtC19.bytesLit, PyRtC19.Byte.ofNat]
+
+theorem consHead_nat (c : Nat) (ls : List (List Nat)) : PyRtC19.consHead c ls = consHead c ls := by
+  cases ls <;> rfl
+
+theorem splitlinesAux_nat : ∀ (b : List Nat) (f : Bool), PyRtC19.splitlinesAux f b = splitlinesAux bytesBreak f b := by
+  intro b
+  induction b with
+  | nil => intro f; simp [PyRtC19.splitlinesAux, splitlinesAux]
+  | cons c cs ih =>
+    intro f
+    simp only [PyRtC19.splitlinesAux, splitlinesAux, ih, consHead_nat, PyRtC19.Byte.val, bytesBreak, id]
+    rfl
+
+theorem bytesSplitlines_nat (b : List Nat) : PyRtC19.bytesSplitlines b = bytesSplitlines b :=
+  splitlinesAux_nat b false
+
+theorem lastIs_getLast (p : Nat → Bool) : ∀ l : List Nat,
+    lastIs p l = (match l.getLast? with | none => false | some x => p x) := by
+  intro l
+  induction l with
+  | nil => rfl
+  | cons c cs ih =>
+    cases cs with
+    | nil => rfl
+    | cons d ds => simp only [lastIs, ih, List.getLast?_cons_cons]
+
+theorem slice_last_nl (b : List Nat) : (PyRt.slice b (some (-(1 : Int))) none = [10]) ↔ endsNL b = true := by
+  rw [PyRt.slice_last, endsNL, lastIs_getLast]
+  cases b.getLast? with
+  | none => simp
+  | some x => simp [isNL]
+
+
+/-- everything a `for line in xs: yield line` loop yields, then the rest -/
+def yieldAll (xs : List (List Nat)) (r : Except PyExc (List (List Nat))) : Except PyExc (List (List Nat)) :=
+  xs.foldr PyRt.yieldCons r
+
+theorem yieldAll_ok (xs l : List (List Nat)) : yieldAll xs (.ok l) = .ok (xs ++ l) := by
+  induction xs with
+  | nil => rfl
+  | cons x xs ih => simp only [yieldAll, List.foldr_cons] at ih ⊢; rw [ih]; rfl
+
+theorem rev_loop2_spec (k kb : reverse_iter_lines.St Nat → Except PyExc (List (List Nat)))
+    (kexc : PyExc → reverse_iter_lines.St Nat → Except PyExc (List (List Nat))) (r : Except PyExc (List (List Nat))) :
+    ∀ (xs : List (List Nat)) (s : reverse_iter_lines.St Nat), (∀ x, k { s with loc9 := x } = r) →
+      reverse_iter_lines.loop2 k kb kexc xs s = yieldAll xs r := by
+  intro xs
+  induction xs with
+  | nil => intro s h; simp only [reverse_iter_lines.loop2, yieldAll, List.foldr_nil]; exact h s.loc9
+  | cons x xs ih =>
+    intro s h
+    simp only [reverse_iter_lines.loop2, yieldAll, List.foldr_cons]
+    have e := ih { s with loc9 := x } (fun y => h y)
+    rw [e]
+    rfl
+
+theorem rev_loop3_spec (k kb : reverse_iter_lines.St Nat → Except PyExc (List (List Nat)))
+    (kexc : PyExc → reverse_iter_lines.St Nat → Except PyExc (List (List Nat))) (r : Except PyExc (List (List Nat))) :
+    ∀ (xs : List (List Nat)) (s : reverse_iter_lines.St Nat), (∀ x, k { s with loc9 := x } = r) →
+      reverse_iter_lines.loop3 k kb kexc xs s = yieldAll xs r := by
+  intro xs
+  induction xs with
+  | nil => intro s h; simp only [reverse_iter_lines.loop3, yieldAll, List.foldr_nil]; exact h s.loc9
+  | cons x xs ih =>
+    intro s h
+    simp only [reverse_iter_lines.loop3, yieldAll, List.foldr_cons]
+    have e := ih { s with loc9 := x } (fun y => h y)
+    rw [e]
+    rfl
+
+
+theorem fileRead_blk (c : List Nat) (rd p : Nat) :
+    PyRtC19.fileRead c (((p - rd : Nat)) : Int) (rd : Int) = blk c rd p := by
+  simp only [PyRtC19.fileRead, blk]
+  rw [if_neg (by omega)]
+  simp
+
+theorem seekSet_nat (p : Nat) : PyRtC19.seekSet? (p : Int) = .ok (p : Int) := by
+  simp only [PyRtC19.seekSet?]; rw [if_neg (by omega)]
+
+theorem rev_loop1_spec (c : List Nat) (bs : Nat) (hbs : 1 ≤ bs)
+    (k kb : reverse_iter_lines.St Nat → Except PyExc (List (List Nat)))
+    (hk : ∀ s' : reverse_iter_lines.St Nat, s'.loc1 = [] → s'.loc2 = [10] → k s' = .ok (flush s'.loc4)) :
+    ∀ (n f p : Nat) (s : reverse_iter_lines.St Nat), p + 1 ≤ n → p ≤ f →
+      s.file_data = c → s.blocksize = (bs : Int) → s.loc1 = [] → s.loc2 = [10] → s.loc5 = (p : Int) →
+      reverse_iter_lines.loop1 k kb (fun e _ => .error e) n s = .ok (revLoopS c (fun _ => bs) f p s.loc4) := by
+  intro n
+  induction n with
+  | zero => intro f p s h; omega
+  | succ n ih =>
+    intro f p s hn hf h1 h2 h3 h4 h5
+    by_cases hp : p = 0
+    · subst hp
+      have e : revLoopS c (fun _ => bs) f 0 s.loc4 = flush s.loc4 := by cases f <;> simp [revLoopS]
+      rw [e]
+      simp only [reverse_iter_lines.loop1, h5]
+      simp [hk s h3 h4]
+    · obtain ⟨f, rfl⟩ : ∃ f', f = f' + 1 := ⟨f - 1, by omega⟩
+      have hmin : min (bs : Int) (p : Int) = ((min bs p : Nat) : Int) := by omega
+      have hsub : (p : Int) - ((min bs p : Nat) : Int) = ((p - min bs p : Nat) : Int) := by omega
+      have hpos : (0 : Int) < (p : Int) := by omega
+      simp only [reverse_iter_lines.loop1, h1, h2, h3, h4, h5, hpos, if_true, hmin, hsub, seekSet_nat, fileRead_blk,
+        bytesSplitlines_nat]
+      have hrd : 1 ≤ min bs p := by omega
+      generalize hB : blk c (min bs p) p ++ s.loc4 = B
+      simp only [revLoopS, hp, if_false, hB]
+      have hrec : ∀ (s' : reverse_iter_lines.St Nat), s'.file_data = c → s'.blocksize = (bs : Int) → s'.loc1 = [] →
+          s'.loc2 = [10] → s'.loc5 = ((p - min bs p : Nat) : Int) →
+          reverse_iter_lines.loop1 k kb (fun e _ => .error e) n s'
+            = .ok (revLoopS c (fun _ => bs) f (p - min bs p) s'.loc4) :=
+        fun s' a b c' d e => ih f (p - min bs p) s' (by omega) (by omega) a b c' d e
+      rcases hL : bytesSplitlines B with _ | ⟨l0, _ | ⟨l1, ls⟩⟩
+      · rw [if_pos (Or.inl (by simp [PyRt.len]))]
+        rw [hrec _ rfl rfl rfl rfl rfl]
+      · rw [if_pos (Or.inl (by simp [PyRt.len]))]
+        rw [hrec _ rfl rfl rfl rfl rfl]
+      · have hlen : ¬ (PyRt.len (l0 :: l1 :: ls) < 2) := by simp only [PyRt.len, List.length_cons]; omega
+        by_cases h0 : l0 = []
+        · rw [if_pos (Or.inr (by simp [PyRtC19.head, h0]))]
+          rw [hrec _ rfl rfl rfl rfl rfl]
+          simp [h0]
+        · rw [if_neg (by simp [PyRtC19.head, h0, hlen])]
+          have hidx : PyRt.index? (l0 :: l1 :: ls) 0 = .ok l0 := by
+            simp [PyRt.index?, PyRt.normIdx]
+          simp only [h0, if_false, slice_last_nl]
+          rw [rev_loop2_spec (r := .ok (revLoopS c (fun _ => bs) f (p - min bs p) l0))]
+          · simp only [yieldAll_ok, PyRtC19.revTail, List.tail_cons]
+            cases endsNL B <;> simp [PyRt.yieldCons]
+          · intro x
+            simp only [hidx]
+            exact hrec _ rfl rfl rfl rfl rfl
+
+
+/-- the code after the loop (`if buff: …`) yields the model's `flush buff` -/
+theorem rev_flush_spec (s : reverse_iter_lines.St Nat) (h1 : s.loc1 = []) (h2 : s.loc2 = [10]) :
+    (if s.loc4 ≠ [] then
+        (if PyRt.slice s.loc4 (some (-(1 : Int))) none = s.loc2 then
+          yieldAll (PyRtC19.reversed (PyRtC19.bytesSplitlines s.loc4 ++ [s.loc1])) (.ok [])
+        else yieldAll (PyRtC19.reversed (PyRtC19.bytesSplitlines s.loc4)) (.ok []))
+      else .ok []) = .ok (flush s.loc4) := by
+  simp only [h1, h2, slice_last_nl, bytesSplitlines_nat, yieldAll_ok, PyRtC19.reversed, flush, linesOf]
+  by_cases hb : s.loc4 = [] <;> cases endsNL s.loc4 <;> simp [hb]
+
+/-- **the tie of `reverse_iter_lines`** (binary mode): for EVERY file content `c`, block size `bs ≥ 1`, `preseek` flag and
+    start position `pos`, with any loop fuel above the start position, the generated definition on the abstract file
+    `(c, pos)` returns normally (no exception, no `OutOfFuel`: the `while` loop terminates) the model's `revLoopS` at the
+    constant read schedule, started at the end of the file (`preseek`) or at `pos` -/
+theorem src_reverse_iter_lines_eq_model (c : List Nat) (bs pos lfuel : Nat) (preseek : Bool) (hbs : 1 ≤ bs)
+    (hf : (if preseek then c.length else pos) + 1 ≤ lfuel) :
+    reverse_iter_lines (β := Nat) lfuel c (pos : Int) (bs : Int) preseek
+      = .ok (revLoopS c (fun _ => bs) (if preseek then c.length else pos) (if preseek then c.length else pos) []) := by
+  have e3 : ∀ (xs : List (List Nat)) (S : reverse_iter_lines.St Nat),
+      reverse_iter_lines.loop3 (fun _ => Except.ok []) (fun _ => Except.ok []) (fun e _ => Except.error e) xs S
+        = yieldAll xs (.ok []) :=
+    fun xs S => rev_loop3_spec _ _ _ _ xs S (fun _ => rfl)
+  have hk : ∀ s' : reverse_iter_lines.St Nat, s'.loc1 = [] → s'.loc2 = [10] →
+      (fun (s : reverse_iter_lines.St Nat) =>
+        if s.loc4 ≠ [] then
+          (if PyRt.slice s.loc4 (some (-(1 : Int))) none = s.loc2 then
+            reverse_iter_lines.loop3 (fun _ => Except.ok []) (fun _ => Except.ok []) (fun e _ => Except.error e)
+              (PyRtC19.reversed (PyRtC19.bytesSplitlines s.loc4 ++ [s.loc1]))
+              { s with loc8 := PyRtC19.bytesSplitlines s.loc4 ++ [s.loc1] }
+          else
+            reverse_iter_lines.loop3 (fun _ => Except.ok []) (fun _ => Except.ok []) (fun e _ => Except.error e)
+              (PyRtC19.reversed (PyRtC19.bytesSplitlines s.loc4)) { s with loc8 := PyRtC19.bytesSplitlines s.loc4 })
+        else Except.ok []) s' = .ok (flush s'.loc4) := by
+    intro s' h1 h2
+    simp only [e3]
+    exact rev_flush_spec s' h1 h2
+  -- a guard `if blocksize < 1: raise ValueError(...)` at the head of the function is decided by `hbs`
+  have hb1 : ¬ ((bs : Int) < 1) := by omega
+  have hb2 : ¬ ((bs : Int) ≤ 0) := by omega
+  have hb3 : (1 : Int) ≤ (bs : Int) := by omega
+  have hb4 : (0 : Int) < (bs : Int) := by omega
+  cases preseek
+  · simp only [reverse_iter_lines, reverse_iter_lines.body, bytesLit_nat, Bool.false_eq_true, if_false, hb1, hb2, hb3, hb4,
+      if_true, not_true_eq_false, not_false_eq_true, ge_iff_le, gt_iff_lt] at hf ⊢
+    rw [rev_loop1_spec c bs hbs _ _ hk lfuel pos pos _ hf (Nat.le_refl _) rfl rfl rfl rfl rfl]
+  · simp only [reverse_iter_lines, reverse_iter_lines.body, bytesLit_nat, if_true, PyRt.len, hb1, hb2, hb3, hb4, if_false,
+      not_true_eq_false, not_false_eq_true, ge_iff_le, gt_iff_lt] at hf ⊢
+    rw [rev_loop1_spec c bs hbs _ _ hk lfuel c.length c.length _ hf (Nat.le_refl _) rfl rfl rfl rfl rfl]
+
+/-- `list(reverse_iter_lines(f, blocksize))` on a binary file with content `c` -/
+theorem src_reverse_iter_lines_preseek (c : List Nat) (bs pos lfuel : Nat) (hbs : 1 ≤ bs) (hf : c.length + 1 ≤ lfuel) :
+    reverse_iter_lines (β := Nat) lfuel c (pos : Int) (bs : Int) true = .ok (reverseIterLines c bs) := by
+  rw [src_reverse_iter_lines_eq_model c bs pos lfuel true hbs (by simpa using hf)]
+  rfl
+
+/-- `list(reverse_iter_lines(f, blocksize, preseek=False))` with the file position at `pos` inside the file -/
+theorem src_reverse_iter_lines_from (c : List Nat) (bs pos lfuel : Nat) (hbs : 1 ≤ bs) (hp : pos ≤ c.length)
+    (hf : pos + 1 ≤ lfuel) :
+    reverse_iter_lines (β := Nat) lfuel c (pos : Int) (bs : Int) false = .ok (reverseIterLinesFrom c pos bs) := by
+  rw [src_reverse_iter_lines_eq_model c bs pos lfuel false hbs (by simpa using hf)]
+  simp [reverseIterLinesFrom, revLoop, Nat.min_eq_left hp]
+
+example : (match reverse_iter_lines (β := Nat) 9 [97, 10, 98, 13, 10, 99, 10] 0 3 true with
+    | .ok ls => ls | .error _ => [[0]]) = [[], [99], [98], [97]] := by decide
 
 end C19
